@@ -343,6 +343,20 @@ def r7_traversal_stays_in_the_wordnet(ctx, res):
     from .c04 import r7_wordnet_handed_on
     r7_wordnet_handed_on(ctx, res)
 
+def r8_paths_never_start_with_the_synset_itself(ctx, res):
+    """a hypernym chain of x is a SIMPLE chain that does not contain x: the first hop of relation_paths leaves out a relation of
+    the synset to itself (`target._id != self._id`; later hops are covered by the visited set, which contains the start) - a
+    self-loop is valid WN-LMF (W502) and would otherwise yield the chain [x, ...] and raise every depth by one."""
+    from ..speccheck import view
+    v = view(ctx, '_core', '_Relatable.relation_paths')
+    key = 'paths:first-hop-excludes-start'
+    firsts = [r for r in v.rows if r[0] == 'call' and '.append(([$1], ' in r[1] and r[3] == ('for self.get_related(*args)',)]
+    res.inst(key, v.loc(), f'{[(r[1][:50], sorted(r[2])) for r in firsts]}')
+    if len(firsts) != 1 or not ({'$1._id != self._id'} <= set(firsts[0][2]) or {'$1 != self'} <= set(firsts[0][2])
+                                 or {'$1 is not self'} <= set(firsts[0][2])):
+        res.find(key, v.loc(), 'relation_paths no longer leaves a relation of the start synset to itself out of the first hop: '
+                               f'{[(r[1][:50], sorted(r[2])) for r in firsts]}')
+
 RULES = [
     ('C13-R1', r1_termination, 5),
     ('C13-R2', r2_forwarding, 10),
@@ -351,4 +365,5 @@ RULES = [
     ('C13-R5', r5_anchors, 14),
     ('C13-R6', r6_one_simulated_root, 1),
     ('C13-R7', r7_traversal_stays_in_the_wordnet, 12),
+    ('C13-R8', r8_paths_never_start_with_the_synset_itself, 1),
 ]
